@@ -232,8 +232,8 @@ func (g *G) genNode(f *FlowSpec, fidx, nidx int, nd *nodeDraft, loc J) {
 	t.Begin("router")
 	defer t.End()
 	kind := t.Weighted("routerkind", 4, 5, 1)
-	if enteredFlow {
-		// subflow nodes route on the child run's status
+	if enteredFlow && !t.Chance("enter_flow_with_ordinary_router", 1, 8) {
+		// subflow nodes route on the child run's status (an ordinary router, even one with a wait, also loads)
 		kind = 3
 	} else if g.idiom && nidx == 0 {
 		kind = 0
@@ -330,11 +330,14 @@ var testPool = []testSpec{
 	{"has_email", noArg}, {"has_error", noArg},
 	{"has_state", noArg}, {"has_district", func(g *G) []string {
 		if g.T.Chance("districtstate", 1, 2) {
-			return []string{"Kigali City"}
+			return []string{[]string{"Kigali City", "Eastern Province"}[g.T.Pick("whichstate", 2)]}
 		}
 		return nil
 	}},
-	{"has_ward", func(g *G) []string { return []string{"Gasabo", "Kigali City"} }},
+	{"has_ward", func(g *G) []string {
+		// has_ward(text, state, district); the first entry has them the wrong way round (never matches)
+		return [][]string{{"Gasabo", "Kigali City"}, {"Kigali City", "Gasabo"}, {"Kigali", "Kicukiro"}, {"Eastern Province", "Gatsibo"}, {"Eastern Province", "Gasabo"}, {"Kigali City", "Kicukiro"}}[g.T.Pick("wardparent", 6)]
+	}},
 	{"has_group", func(g *G) []string {
 		if len(g.S.Groups) == 0 {
 			return []string{UUID(kGroup, 999), "Missing"}
@@ -386,6 +389,15 @@ func (g *G) genSwitch(f *FlowSpec, nd *nodeDraft, loc J, subflow bool) {
 	}
 	webhookOperand := strings.HasPrefix(operand, "@webhook")
 	r["operand"] = operand
+	// "where do you live?": a router whose cases are all location tests, under various parents
+	survey := g.S.Locs && !subflow && t.Chance("location_survey", 1, 10)
+	if survey {
+		operand, webhookOperand = "@input.text", false
+		r["operand"] = operand
+		ncases = 3 + t.Pick("survey_cases", 4)
+		g.forceWait = true
+		defer func() { g.forceWait = false }()
+	}
 	cases := []any{}
 	if subflow {
 		cu := g.uuid(kCase)
@@ -397,7 +409,18 @@ func (g *G) genSwitch(f *FlowSpec, nd *nodeDraft, loc J, subflow bool) {
 	} else {
 		for i := 0; i < ncases; i++ {
 			t.Begin("case")
-			ts := testPool[t.Weighted("test", append([]int{10, 4, 4}, ones(len(testPool)-3)...)...)]
+			wts := append([]int{10, 4, 4}, ones(len(testPool)-3)...)
+			if g.S.Locs {
+				// a workspace with a location hierarchy uses it
+				for wi, tsp := range testPool {
+					if tsp.name == "has_state" || tsp.name == "has_district" || tsp.name == "has_ward" {
+						wts[wi] = 4
+					} else if survey {
+						wts[wi] = 0
+					}
+				}
+			}
+			ts := testPool[t.Weighted("test", wts...)]
 			args := ts.args(g)
 			cu := g.uuid(kCase)
 			c := J{"uuid": cu, "type": ts.name, "category_uuid": cats[t.Pick("casecat", len(cats))]["uuid"]}
@@ -416,6 +439,15 @@ func (g *G) genSwitch(f *FlowSpec, nd *nodeDraft, loc J, subflow bool) {
 				if !strings.HasPrefix(a, "@") {
 					g.S.Vocab = append(g.S.Vocab, a)
 				}
+			}
+			// a flow that asks where people live gets answers naming places (names repeat across parents)
+			switch ts.name {
+			case "has_ward":
+				g.S.Vocab = append(g.S.Vocab, "Remera", "Ndera", []string{"Gisozi", "Kageyo", "remera", "Remera I"}[t.Pick("wardword", 4)])
+			case "has_district":
+				g.S.Vocab = append(g.S.Vocab, "Gasabo", []string{"Kicukiro", "Gatsibo", "Nyarugenge"}[t.Pick("districtword", 3)])
+			case "has_state":
+				g.S.Vocab = append(g.S.Vocab, []string{"Kigali", "Eastern Province", "Kigali City"}[t.Pick("stateword", 3)])
 			}
 			cases = append(cases, c)
 			t.End()
